@@ -23,6 +23,7 @@ const Module = "github.com/markkurossi/mpc"
 
 // Program is the loaded repository.
 type Program struct {
+	Cfg       Config
 	Dir       string
 	Fset      *token.FileSet
 	Pkgs      []*packages.Package
@@ -69,7 +70,7 @@ func Load(cfg Config) (*Program, error) {
 	if len(pkgs) == 0 {
 		return nil, fmt.Errorf("no packages loaded from %s", cfg.Dir)
 	}
-	p := &Program{Dir: cfg.Dir, Fset: pc.Fset, Pkgs: pkgs, ByPath: map[string]*packages.Package{}, cgVTA: cfg.VTA}
+	p := &Program{Cfg: cfg, Dir: cfg.Dir, Fset: pc.Fset, Pkgs: pkgs, ByPath: map[string]*packages.Package{}, cgVTA: cfg.VTA}
 	var errs []string
 	packages.Visit(pkgs, nil, func(pk *packages.Package) {
 		for _, e := range pk.Errors {
@@ -81,6 +82,11 @@ func Load(cfg Config) (*Program, error) {
 	}
 	for _, pk := range pkgs {
 		p.ByPath[pk.PkgPath] = pk
+	}
+	for _, pk := range pkgs {
+		if strings.HasPrefix(pk.PkgPath, Module) {
+			normalize(pk)
+		}
 	}
 	p.SSA, _ = ssautil.AllPackages(pkgs, ssa.InstantiateGenerics)
 	p.SSA.Build()
@@ -349,4 +355,39 @@ func (p *Program) ModuleReach(roots ...*ssa.Function) map[*ssa.Function]bool {
 		}
 	}
 	return seen
+}
+
+var otherArch struct {
+	key string
+	p   *Program
+	err error
+}
+
+// OtherArch loads (once per process) the build configuration whose file set differs from the native one:
+// GOARCH=arm64 selects the portable siblings of the amd64 assembly.  A program that is itself a
+// non-native configuration returns nil.
+func (p *Program) OtherArch() (*Program, error) {
+	if p.Cfg.GOARCH != "" {
+		return nil, nil
+	}
+	if otherArch.key != p.Dir {
+		cfg := p.Cfg
+		cfg.GOARCH = "arm64"
+		cfg.VTA = false
+		otherArch.key = p.Dir
+		otherArch.p, otherArch.err = Load(cfg)
+	}
+	return otherArch.p, otherArch.err
+}
+
+// HasFile reports whether the configuration parsed the file (repo-relative path).
+func (p *Program) HasFile(rel string) bool {
+	for _, pk := range p.Pkgs {
+		for _, f := range pk.GoFiles {
+			if r, err := filepath.Rel(p.Dir, f); err == nil && r == rel {
+				return true
+			}
+		}
+	}
+	return false
 }
